@@ -238,7 +238,8 @@ def run(tier: str, seed: int, known: list[dict[str, Any]]) -> dict[str, Any]:
         items = [(f"history.{k}", (seed, tier, k, n)) for k in range(n)]
         r = trun.run_family("C11", "C11.E", _history, items, known, None,
                             bounds="per shard: one pristine pass (package-level containers restored before every call) and "
-                                   "three carried passes (given / reversed / shuffled order) on reused compilers, in one process")
+                                   "three carried passes (given / reversed / shuffled order) on reused compilers, in one process",
+                            chunksize=1)
     finally:
         T.TASK_TIMEOUT = old
     r["engine"] = "E"
